@@ -381,6 +381,56 @@ def generate():
         for meta in ["DerefMut = 1", "DerefMut(x)", "DerefMut()"]:
             yield ("type-level-form", ANY, item("struct", "S", ["#[educe(%s)]" % meta], [("", "tuple", [], plain_fields("tuple", 1))]))
         yield ("union-not-supported", {"notSupportUnion"}, item("union", "U", [tattr], [("", "named", [], plain_fields("named", 2))]))
+    # ---- companion traits (Eq/PartialEq, Ord/PartialOrd, Copy/Clone, DerefMut/Deref): educed together or alone, an attribute of
+    # either at a field / variant in every form; the valid combinations are listed and skipped
+    for first, second in [("PartialEq", "Eq"), ("PartialOrd", "Ord"), ("Clone", "Copy"), ("Deref", "DerefMut")]:
+        for educed in ["%s, %s" % (first, second), second, first]:
+            one = first == "Deref"
+            for t in (first, second):
+                for fm in [t, "%s(bound(*))" % t, "%s = 1" % t, "%s(ignore)" % t, "%s, %s" % (t, t), "%s(zzz)" % t, "Zzz", "Hash"]:
+                    on = [x.strip() for x in educed.split(",")]
+                    valid_at_field = (fm == "%s(ignore)" % t and t in on and t in ("PartialEq", "PartialOrd", "Ord")) \
+                        or (fm == "Eq(ignore)" and on == ["PartialEq", "Eq"]) \
+                        or (fm == t and t in on and t in ("Deref", "DerefMut"))
+                    fs = with_attr(plain_fields("tuple", 1 if one else 2), 0, "#[educe(%s)]" % fm)
+                    if not valid_at_field:
+                        yield ("companion-trait-attribute", ANY, item("enum", "E", ["#[educe(%s)]" % educed], [("A", "tuple", [], fs)]))
+                        yield ("companion-trait-attribute", ANY, item("struct", "S", ["#[educe(%s)]" % educed], [("", "tuple", [], fs)]))
+                    yield ("companion-trait-attribute", ANY, item("enum", "E", ["#[educe(%s)]" % educed], [("A", "tuple", ["#[educe(%s)]" % fm], plain_fields("tuple", 1))]))
+    # ---- bound values that are neither predicates, a boolean nor `*`
+    for t in ["Debug", "Clone", "PartialEq", "PartialOrd", "Ord", "Hash", "Default", "Eq", "Copy"]:
+        for b in ["bound = x", 'bound = "T: !!"', "bound = 3", "bound(3)", "bound(T Copy)", "bound = 'a'", "bound(**)", 'bound = "*"', "bound"]:
+            yield ("bound-value-malformed", ANY, item("struct", "S", ["#[educe(%s(%s))]" % (t, b)], [("", "tuple", [], plain_fields("tuple", 2, "T"))], "<T>"))
+            yield ("bound-value-malformed", ANY, item("enum", "E", ["#[educe(%s(%s))]" % (t, b)],
+                                                      [("A", "named", ["#[educe(Default)]"] if t == "Default" else [], plain_fields("named", 1, "T"))], "<T>"))
+    # ---- further placements found with bin/coverage
+    for form in ["Debug(name = false)", 'Debug(name = "")']:
+        for nf in ("", ", named_field = true", ", named_field = false"):
+            for n in (0, 1, 2):
+                fs = plain_fields("tuple", n)
+                for k in range(n):
+                    fs = with_attr(fs, k, "#[educe(Debug(ignore))]")
+                for upos in (0, 1):
+                    vs = [("A", "named", [], plain_fields("named", 1))]
+                    vs.insert(upos, ("T", "tuple", ["#[educe(%s)]" % (form[:-1] + nf + ")")], fs))
+                    yield ("debug-nameless-unit", {"unitStructNeedName"}, item("enum", "E", ["#[educe(Debug)]"], vs))
+    for va in ["#[educe(Debug(name = X), Debug(name = Y))]", "#[educe(Debug = X)] #[educe(Debug = Y)]", "#[educe(Debug(named_field = true))] #[educe(Debug(name = Y))]"]:
+        yield ("trait-twice-at-variant", {"reuseTrait"}, item("enum", "E", ["#[educe(Debug)]"], [("A", "tuple", [], plain_fields("tuple", 1)), ("B", "named", [va], plain_fields("named", 1))]))
+    for va in ["#[educe(Default, Default)]", "#[educe(Default)] #[educe(Default)]"]:
+        yield ("trait-twice-at-variant", {"reuseTrait"}, item("enum", "E", ["#[educe(Default)]"], [("A", "tuple", [va], plain_fields("tuple", 1)), ("B", "unit", [], [])]))
+    for t in ["PartialOrd", "Ord", "PartialEq", "Hash"]:
+        twice = ["ignore, ignore", "ignore = true, ignore(false)", "method = a, method(b)", "method(a), method(a)"]
+        if t in ("PartialOrd", "Ord"):
+            twice += ["rank = 1, rank = 2", "rank(1), rank = 1", "rank = 1, ignore, rank = 1"]
+        for a in twice:
+            for label, mk, shape in struct_and_enum_hosts(["#[educe(%s)]" % t]):
+                yield ("parameter-twice", {"parameterReset"}, mk(with_attr(plain_fields(shape, 2), 1, "#[educe(%s(%s))]" % (t, a))))
+        for label, mk, shape in struct_and_enum_hosts(["#[educe(%s)]" % t]):
+            yield ("trait-twice-at-field", {"reuseTrait"}, mk(with_attr(plain_fields(shape, 2), 0, "#[educe(%s(ignore), %s(ignore))]" % (t, t))))
+            yield ("trait-twice-at-field", {"reuseTrait"}, mk(with_attr(plain_fields(shape, 2), 1, "#[educe(%s(ignore))] #[educe(%s(method = m))]" % (t, t))))
+    for tattr in ["#[educe(DerefMut)]", "#[educe(Deref)]", "#[educe(Deref, DerefMut)]"]:
+        yield ("deref-field-missing", {"noDerefField"}, item("enum", "E", [tattr], []))
+    yield ("into-field-missing", {"noIntoField", "noIntoImpl"}, item("enum", "E", ["#[educe(Into(u8))]"], []))
     # union fields accept nothing for Debug / PartialEq / Hash / Clone
     for t, a in [("Debug(unsafe)", "Debug(ignore)"), ("Debug(unsafe)", "Debug(method(m))"), ("Debug(unsafe)", "Debug = x"), ("PartialEq(unsafe)", "PartialEq(ignore)"),
                  ("PartialEq(unsafe)", "PartialEq(method(m))"), ("Hash(unsafe)", "Hash(method(m))"), ("Hash(unsafe)", "Hash = false"), ("Clone", "Clone(method(m))"),
